@@ -383,3 +383,14 @@ func init() {
 		}
 	}
 }
+
+func init() {
+	exploreExtra["mapappend"] = func(p *Prog) {
+		c := NewCtx(p, "X", "quick")
+		c.quiet = true
+		ruleMapAppendKey(c, "MAP-APPEND-KEY", p.ModulePkgs())
+		for _, o := range c.Obls {
+			fmt.Printf("%s\t%s\t%v\t%s\n", o.Pos, o.Instance, o.OK, short(o.Msg, 160))
+		}
+	}
+}
